@@ -1078,6 +1078,53 @@ variant("mail-no-grow",
 """, ""))
 variant("hello-fallback-switch",
   ("client.go", """		if errors.As(err, &smtpError) && (smtpError.Code == 500 || smtpError.Code == 502) {""", """		if errors.As(err, &smtpError) && (smtpError.Code == 502 || smtpError.Code == 500) {"""))
+variant("writeerror-type-switch",
+  ("conn.go", """	if smtpErr, ok := err.(*SMTPError); ok {
+		c.writeResponse(smtpErr.Code, smtpErr.EnhancedCode, smtpErr.Message)
+	} else {
+		c.writeResponse(code, enhCode, err.Error())
+	}""", """	switch smtpErr := err.(type) {
+	case *SMTPError:
+		c.writeResponse(smtpErr.Code, smtpErr.EnhancedCode, smtpErr.Message)
+	default:
+		c.writeResponse(code, enhCode, err.Error())
+	}"""))
+variant("beginline-byte-switch",
+  ("data.go", """			if c == '.' {
+				r.state = stateDot
+				continue
+			}
+			if c == '\\r' {
+				r.state = stateCR
+				break
+			}
+			r.state = stateData
+		case stateDot:""", """			switch c {
+			case '.':
+				r.state = stateDot
+				continue
+			case '\\r':
+				r.state = stateCR
+			default:
+				r.state = stateData
+			}
+		case stateDot:"""))
+variant("dataerrortostatus-early-nil",
+  ("conn.go", """	if err != nil {
+		if smtperr, ok := err.(*SMTPError); ok {
+			return smtperr.Code, smtperr.EnhancedCode, smtperr.Message
+		} else {
+			return 554, EnhancedCode{5, 0, 0}, "Error: transaction failed: " + err.Error()
+		}
+	}
+
+	return 250, EnhancedCode{2, 0, 0}, "OK: queued\"""", """	if err == nil {
+		return 250, EnhancedCode{2, 0, 0}, "OK: queued"
+	}
+	if smtperr, ok := err.(*SMTPError); ok {
+		return smtperr.Code, smtperr.EnhancedCode, smtperr.Message
+	}
+	return 554, EnhancedCode{5, 0, 0}, "Error: transaction failed: " + err.Error()"""))
 if sys.argv[1:] == ['--export']:
     out = [{"id": "benign-" + n, "edits": [{"file": f, "old": o, "new": w} for f, o, w in V[n]]} for n in V]
     json.dump(out, open('/verif/liveness/benign.json', 'w'), indent=1)
